@@ -119,12 +119,15 @@ theorem impure_call_invalidates {Γ : Ctx} {env env' : Env} {fs : List Expr}
     Situation Γ env' (dropReceiver fs) :=
   havoc_keeps S H
 
-/-- **assignment_invalidates**: C01's `facts_hold_F1` (`dropAnyFactsMentioning`, the
-`x += c` rewriting, the new `lhs == rhs` / bound facts), as used by `facts_hold` -/
+/-- **assignment_invalidates**: C01's `facts_hold_F1` / `store_sound` (assignment and
+op-assignment to a variable or to an ARRAY ELEMENT `a[i]`: `dropAnyFactsMentioning`,
+for an element store every fact that reads an element of `a` — the repaired rule,
+fixes/C01-index-alias-store.patch —, the `x += c` rewriting, the new `lhs == rhs` / bound
+facts), as used by `facts_hold` -/
 theorem assignment_invalidates {Γ : Ctx} {env : Env} {fs fs' : List Expr} {s : Stmt}
-    (S : Situation Γ env fs) (hw : wtStmt Γ s) (h : checkStmt fs s = some fs') :
+    (S : Situation Γ env fs) (hw : wtStmtA Γ s) (h : checkStmt fs s = some fs') :
     stmtSafe env s ∧ Situation Γ (execStmt env s) fs' :=
-  stmt_sound S hw h
+  stmtA_sound S hw h
 
 /-- **reconciliation_sound**: after an if-else chain the checker keeps the facts that
 every non-terminating branch ends with (`unify` = intersection): they hold whichever
@@ -156,7 +159,7 @@ theorem base_statement_safe {Γ : Ctx} {L L' : List LoopSpec} {fs fs' : List Exp
   simp only [checkS] at hc'
   cases hq : checkStmt fs' st with
   | none => simp [hq] at hc'
-  | some f => exact (stmt_sound S' hw' hq).1
+  | some f => exact (stmtA_sound S' hw' hq).1
 
 /-! ## the axioms half meets the facts half -/
 
